@@ -69,6 +69,7 @@ class ProtoRun {
     bool captured_reset = false;
     bool pending_gap[2] = { false, false }, gap_is_mod[2] = { false, false }, swap_pending[2] = { false, false };
     Bytes held_b[2]; bool held_mod[2] = { false, false }, have_held[2] = { false, false };
+    Bytes glue_b[2]; bool have_glue[2] = { false, false };   // glue_ccs with b&1: waits for the next record of the direction
     int encode_attempts = 0;
     size_t next_honest[2] = { 0, 0 };      // TLS: index of the next honest record the receiver of this direction has not been given yet
     SealAudit audit;                       // C17 oracle state (fed by every probe)
